@@ -92,6 +92,11 @@ func (tc *templateChecker) checkTemplate(node ast.Node) {
 		tc.checkCall(node)
 	case *ast.ForNode:
 		// the loop variable is in scope in the loop body only.
+		// ($ij is the injected data everywhere: a loop variable of that name could
+		// never be read.)
+		if node.Var == "ij" {
+			panic("Invalid variable name in 'for' command text: '$ij'")
+		}
 		tc.checkTemplate(node.List)
 		tc.vars = append(tc.vars, &variable{node.Var, forVar, false})
 		tc.checkTemplate(node.Body)
